@@ -29,7 +29,9 @@ LEVEL_TEXT = ("query_history_free (Lean, by induction over arbitrary interleavin
               "obligation cache_discipline_ok is decided. The uncached computation being a function of the declared graph is tied to "
               "the code by the cache-free Lean model of the planner (differential execution of histories against the memoising "
               "implementation) and by the property's own oracle: replay of declarations + one query in a fresh interpreter.")
-LEVEL_NOTE = ("Trusted: Lean kernel; translator gen_caches.py (AST pattern: unconditional <fn>.cache_clear() statements after the last "
+LEVEL_NOTE = ("Partial: the planner itself is NOT history independent - the order of an interned unit's factor mapping, fixed by "
+              "whichever expression first built the unit, decides how factors are paired (known finding C08-K9-factor-order; "
+              "factor_order_witness is the kernel-evaluated counterexample in the model of the real planner). Trusted: Lean kernel; translator gen_caches.py (AST pattern: unconditional <fn>.cache_clear() statements after the last "
               "graph write); harness. Assumed: functools.lru_cache semantics; the per-object caches on Unit/Dimension methods do not "
               "depend on the graph (interning is deterministic - C02).")
 TECHNIQUE = "Lean 4 proof over an abstract memoisation model + AST-extracted discipline obligation + cache-free model correspondence + fresh-process oracle"
@@ -37,8 +39,10 @@ TECHNIQUE = "Lean 4 proof over an abstract memoisation model + AST-extracted dis
 THEOREMS = [
     "Measured.C08.step_coh", "Measured.C08.query_correct", "Measured.C08.query_history_free",
     "Measured.C08.query_repeatable", "Measured.C08.declared_then_visible", "Measured.C08.stale_witness",
-    "Measured.Obligations.cache_discipline_ok", "Measured.Obligations.cached_fns_known",
+    "Measured.Obligations.cache_discipline_ok", "Measured.Obligations.cached_readers_cleared",
+    "Measured.C08.factor_order_witness",
 ]
+LEAN_TARGETS = ["Props.C08", "Props.C08Planner", "Obligations.C08"]
 QUICK = {"chunks": 4, "ops": 500}
 THOROUGH = {"chunks": 16, "ops": 3000}
 RULE = ("histories of 15-40 actions over 3-5 freshly defined base units and shipped units; non-trivial = a query whose "
